@@ -27,6 +27,7 @@ RULE = (
     "or a non-default parameter; distinct = distinct (tool, flavours, key sequences, callables, "
     "parameters) tuples over all co-tenants, counted by 64-bit hash."
     " Extensions of rounds 9-12: the consumer may stop a finite tool early (any prefix) or ask again after the end; faults also at the pull after the stdlib's last pull of an open source; nested chains and re-split tee children; regular generator sources whose owner reads on afterwards; repeated / None / Ellipsis-like items; once in 15000 runs a tee child lagging 65541+ items."
+    " Round 13: the tee may be given a plain (never suspending) lock."
 )
 COMPONENTS = COMPONENTS_BASE
 ASSUMPTIONS = [
